@@ -10,7 +10,10 @@ def units_stream(name, fields, **kw):
 
     def prepare(tier, seed):
         hdir = os.path.join(ROOT, "harness")
-        rc, out = sh(["go", "build", "-o", os.path.join(ROOT, "build", "genrun"), "./cmd/genrun"], cwd=hdir, env=GOENV, timeout=900)
+        cmd = ["go", "build", "-o", os.path.join(ROOT, "build", "genrun")]
+        if os.environ.get("VERIF_REPO", "/repo") != "/repo":
+            cmd += ["-modfile=" + os.path.join(ROOT, ".cache", "alt.mod")]      # written by engine.build_tools (development aid)
+        rc, out = sh(cmd + ["./cmd/genrun"], cwd=hdir, env=GOENV, timeout=900)
         if rc != 0:
             return "go build genrun (does /repo still compile?): " + out[-2000:]
         gopath = subprocess.run(["go", "env", "GOPATH"], stdout=subprocess.PIPE, env=GOENV).stdout.decode().strip()
